@@ -2,7 +2,7 @@
     Only statements, closed by [exact], with their assumptions printed.
     Every theorem is for every glob engine [matches], parser, bundler, generator and rule bodies. *)
 From Coq Require Import List.
-From DL Require Import Model.Filters Proof.FiltersFacts Proof.FiltersExamples.
+From DL Require Import Model.Filters Model.FiltersGlob Proof.FiltersFacts Proof.FiltersExamples Proof.FiltersGlobFacts.
 Import ListNotations.
 
 Theorem C20_should_apply_spec :
@@ -156,3 +156,21 @@ Check C20_rule_filter_local :
          (flt' : filter pattern),
   should_apply matches (r_filter r) f = should_apply matches flt' f ->
   rules_agree matches f (rs1 ++ r :: rs2) (rs1 ++ with_filter flt' r :: rs2).
+
+Theorem C20_glob_tree_prefix :
+  forall (g : glob) (pre ps : list (list Ascii.ascii)),
+  match_comps g ps = true -> match_comps (CTree :: g) (pre ++ ps) = true.
+Proof. exact tree_prefix. Qed.
+Print Assumptions C20_glob_tree_prefix.
+Check C20_glob_tree_prefix :
+  forall (g : glob) (pre ps : list (list Ascii.ascii)),
+  match_comps g ps = true -> match_comps (CTree :: g) (pre ++ ps) = true.
+
+Theorem C20_glob_tree_prefix_inv :
+  forall (g : glob) (ps : list (list Ascii.ascii)),
+  match_comps (CTree :: g) ps = true -> exists pre suf, ps = pre ++ suf /\ match_comps g suf = true.
+Proof. exact tree_prefix_inv. Qed.
+Print Assumptions C20_glob_tree_prefix_inv.
+Check C20_glob_tree_prefix_inv :
+  forall (g : glob) (ps : list (list Ascii.ascii)),
+  match_comps (CTree :: g) ps = true -> exists pre suf, ps = pre ++ suf /\ match_comps g suf = true.
